@@ -45,6 +45,11 @@ type verifHold struct {
 	on      bool
 	waiting int
 	gate    chan struct{}
+	// retention notices: the first one may be answered slowly; applied ids are recorded
+	retainOn      bool
+	retainWaiting int
+	retainGate    chan struct{}
+	retained      []uint64
 }
 
 type verifStarted struct {
@@ -78,7 +83,18 @@ func (o *verifOp) Deploy(ctx context.Context, req *workerpb.DeployOperatorReques
 	*o.deploys = append(*o.deploys, d)
 	return nil
 }
-func (o *verifOp) UpdateRetainedCheckpoints(ctx context.Context, ids []uint64) error { return nil }
+func (o *verifOp) UpdateRetainedCheckpoints(ctx context.Context, ids []uint64) error {
+	if o.hold != nil && o.hold.retainOn {
+		o.hold.retainOn = false // only the first notice is answered slowly
+		o.hold.retainWaiting++
+		<-o.hold.retainGate
+		o.hold.retainWaiting--
+	}
+	if o.hold != nil {
+		o.hold.retained = append(o.hold.retained, ids[len(ids)-1])
+	}
+	return nil
+}
 
 type verifRunner struct {
 	proto.UnimplementedSourceRunner
@@ -322,7 +338,7 @@ type verifJobEnv struct {
 }
 
 func verifNewJob(workers int) *verifJobEnv {
-	e := &verifJobEnv{clock: newVerifClock(), loc: &verifJobLoc{gate: make(chan struct{})}, hold: &verifHold{gate: make(chan struct{})}}
+	e := &verifJobEnv{clock: newVerifClock(), loc: &verifJobLoc{gate: make(chan struct{})}, hold: &verifHold{gate: make(chan struct{}), retainGate: make(chan struct{})}}
 	job, err := New(&NewParams{
 		JobConfig:         &config.Config{WorkerCount: workers, KeyGroupCount: 8, WorkingStorageLocation: "memory:///w", Sources: []connectors.SourceConfig{verifSource{starts: &e.splitterStarts}}},
 		Clock:             e.clock,
@@ -634,6 +650,46 @@ func Harness_C01_RestartSnapshotConsistency() {
 		if got != nil && len(got.SplitStates) == 1 && len(got.SplitStates[0]) == 1 {
 			verif.Assert(uint64(got.SplitStates[0][0]) == dep.ckptID, "sources-resume-from-the-checkpoint-the-operators-were-deployed-with")
 		}
+	}
+	verif.Reached()
+}
+
+// Harness_C13_RetentionNoticeOrder: a real Job whose operator answers the retention notice of
+// one checkpoint slowly while the next checkpoints complete. Operators must be told what to
+// retain in checkpoint order: the last notice an operator applies names the newest completed
+// checkpoint, never an older one.
+func Harness_C13_RetentionNoticeOrder() {
+	e := verifNewJob(1)
+	ctx := context.Background()
+	e.job.HandleRegisterOperator(&jobpb.NodeIdentity{Id: "o1", Host: "h"})
+	e.job.HandleRegisterSourceRunner(&jobpb.NodeIdentity{Id: "r1", Host: "h"})
+	e.settle()
+	verif.Assert(e.job.status.Value() == StatusRunning, "job-runs-on-a-full-assembly")
+	n := verif.Param("CKPTS", 3)
+	slow := 2 + verif.Choose("slowly-answered-notice", n-1) // the notice of this checkpoint is held (the first notice is for checkpoint 2)
+	for id := uint64(1); id <= uint64(n); id++ {
+		if int(id) == slow {
+			e.hold.retainOn = true
+		}
+		e.clock.TickEvery("checkpointing")
+		e.settle()
+		e.job.HandleOperatorCheckpointComplete(ctx, &snapshotpb.OperatorCheckpoint{CheckpointId: id, OperatorId: "o1", DkvFileUri: "w/o1/checkpoints", KeyGroupRange: &snapshotpb.KeyGroupRange{Start: 0, End: 8}})
+		e.job.HandleSourceRunnerCheckpointComplete(ctx, &jobpb.SourceRunnerCheckpointCompleteRequest{CheckpointId: id, SourceRunnerId: "r1", SplitStates: [][]byte{{byte(id)}}})
+		e.settle()
+	}
+	for e.hold.retainWaiting > 0 {
+		e.hold.retainGate <- struct{}{}
+		e.settle()
+	}
+	e.settle()
+	cur := e.job.snapshotStore.CurrentCheckpoint()
+	verif.Assert(cur != nil && cur.Id == uint64(n), "newest-checkpoint-is-current")
+	verif.Assert(len(e.hold.retained) >= 1, "retention-notices-delivered")
+	for i := 1; i < len(e.hold.retained); i++ {
+		verif.Assert(e.hold.retained[i-1] < e.hold.retained[i], "operators-told-what-to-retain-in-checkpoint-order")
+	}
+	if len(e.hold.retained) > 0 {
+		verif.Assert(e.hold.retained[len(e.hold.retained)-1] == uint64(n), "last-retention-notice-names-the-newest-checkpoint")
 	}
 	verif.Reached()
 }
